@@ -34,6 +34,13 @@ def is_flac(f):
     return AUDIO_FILES[f % len(AUDIO_FILES)].endswith(".flac")
 
 
+def flac_rate(sr):
+    """The nearest rate a FLAC stream can carry: any rate up to 65535 Hz,
+    multiples of 10 Hz up to 655350 Hz (measured against libsndfile 1.2.2)."""
+    sr = min(sr, 655_350)
+    return sr if sr <= 65_535 else sr - sr % 10
+
+
 def flac_bytes(values: np.ndarray, sr: int, bits: int) -> bytes:
     """A FLAC stream (lossless, whole-number samples of 16 or 24 bits) holding
     exactly these frames, written by libsndfile in the scheduler process. The
@@ -260,9 +267,9 @@ class AudioSim(AoefSim):
         if container == "flac":
             # what the format can hold: 16 or 24 bit whole numbers, at least
             # one frame (libsndfile 1.2.2 does not recognise an empty stream),
-            # rates below 655350 Hz
+            # rates FLAC can carry (flac_rate)
             bits, enc = (24 if bits in (24, 32) else 16), "pcm"
-            op = dict(op, frames=max(op["frames"], 1), sr=min(op["sr"], 655_349))
+            op = dict(op, frames=max(op["frames"], 1), sr=flac_rate(op["sr"]))
         vbits = 16 if enc == "float" else bits
         frames = sample_values(op["salt"], 0, op["frames"], op["ch"], vbits)
         self.afiles[op["f"]] = {
@@ -934,7 +941,7 @@ def gen_ops(rng, cfg, seed_tag):
                              rng.randint(0, cfg["max_frames"])])
         long_file = frames > 300_000
         if is_flac(f):
-            frames, sr = max(frames, 1), min(sr, 655_349)
+            frames, sr = max(frames, 1), flac_rate(sr)
         ops.append({"op": "create", "f": f, "sr": sr,
                     "ch": 1 if long_file else rng.choice(cfg["channels"]),
                     "frames": frames, "salt": rng.randrange(1 << 16),
